@@ -11,7 +11,7 @@ import (
 )
 
 func init() {
-	register(&Rule{ID: "E-BOUNDS-LOOP", Props: []string{"C09", "C12", "C03", "C11"}, Floor: 21,
+	register(&Rule{ID: "E-BOUNDS-LOOP", Props: []string{"C09", "C12", "C03", "C11", "C02"}, Floor: 21,
 		Doc: "every loop of the evaluator terminates within a number of iterations bounded by the sizes of its inputs: it ranges over a container, shrinks a string it tests for emptiness, or counts a variable with a constant step towards a limit that is bounded (by lengths, counts, decode sizes, small constants) on the side it is approached from; the magnitude of an integer taken from the expression or from a numeric argument never bounds a loop by itself. Loops that write one output element per iteration are bounded by the size of the result",
 		Run: ruleEBoundsLoop})
 	register(&Rule{ID: "E-BOUNDS-ALLOC", Props: []string{"C09", "C03", "C02"}, Floor: 12,
